@@ -80,3 +80,84 @@ def replay_truncated_chunked(doc):
         if status == 'ok': bad.append('stream cut after %d of %d bytes (%r...) -> successful download of %r' % (cut, len(full), full[:cut][-12:], body))
     if bad: return True, '; '.join(bad[:4])
     return False, 'every proper prefix of the chunked message is reported as an error'
+
+
+class ReaderConnection(FakeConnection):
+    """like FakeConnection, but readline() is asyncio.StreamReader.readline with asyncio's default 64 KiB limit (what the real
+    Connection.readline hands through: ValueError for an over-long line)"""
+    reader = None
+    def _rd(self):
+        import asyncio
+        if self.reader is None:
+            self.reader = asyncio.StreamReader(limit=2 ** 16)
+            self.reader.feed_data(self.data); self.reader.feed_eof()
+        return self.reader
+    def read(self, n=-1):
+        r = yield from self._rd().read(n).__await__()
+        return r
+    def readline(self):
+        r = yield from self._rd().readline().__await__()
+        return r
+
+
+def _remote_errors():
+    from wpull.processor.base import REMOTE_ERRORS
+    return REMOTE_ERRORS
+
+
+def _classify(coro_factory):
+    from compat import shim
+    try:
+        shim.run(coro_factory()); return None
+    except _remote_errors(): return None
+    except BaseException as e: return '%s: %s' % (type(e).__name__, str(e)[:80])
+
+
+def replay_hostile_body(doc):
+    """statement of C09: whatever bytes arrive, read_body succeeds or fails with a per-URL error kind"""
+    from wpull.protocol.http.stream import Stream
+    from wpull.protocol.http.request import Request
+    import io
+    big = b'x' * 70000
+    cases = [('trailer line without a colon', b'3\r\nabc\r\n0\r\nno colon here\r\n\r\n', [('Transfer-Encoding', 'chunked')]),
+             ('chunk terminator line longer than 64 KiB', b'3\r\nabc' + big + b'\r\n0\r\n\r\n', [('Transfer-Encoding', 'chunked')]),
+             ('trailer line longer than 64 KiB', b'3\r\nabc\r\n0\r\nX-T: ' + big + b'\r\n\r\n', [('Transfer-Encoding', 'chunked')]),
+             ('chunk size line longer than 64 KiB', b'3;' + big + b'\r\nabc\r\n0\r\n\r\n', [('Transfer-Encoding', 'chunked')]),
+             ('chunk size not hexadecimal', b'zz\r\nabc\r\n0\r\n\r\n', [('Transfer-Encoding', 'chunked')]),
+             ('negative chunk size', b'-3\r\nabc\r\n0\r\n\r\n', [('Transfer-Encoding', 'chunked')]),
+             ('Content-Length not a number', b'abc', [('Content-Length', 'three')]),
+             ('Content-Length negative', b'abc', [('Content-Length', '-3')]),
+             ('gzip body that is not gzip', b'5\r\nhello\r\n0\r\n\r\n', [('Transfer-Encoding', 'chunked'), ('Content-Encoding', 'gzip')]),
+             ('deflate body cut after one byte', b'\x78', [('Content-Length', '1'), ('Content-Encoding', 'deflate')]),
+             ('raw deflate garbage', b'\xff\xff\xff\xff', [('Content-Length', '4'), ('Content-Encoding', 'deflate')])]
+    bad = []
+    for what, wire, fields in cases:
+        def go():
+            st = Stream(ReaderConnection(wire))
+            return st.read_body(Request('http://example.com/'), _response(200, fields), file=io.BytesIO())
+        r = _classify(go)
+        if r: bad.append('%s -> %s escapes (not a per-URL error kind)' % (what, r))
+    if bad: return True, '; '.join(bad)
+    return False, '%d hostile bodies end in success or a per-URL error kind' % len(cases)
+
+
+def replay_hostile_header(doc):
+    from wpull.protocol.http.stream import Stream
+    big = b'x' * 70000
+    cases = [b'', b'\r\n', b'garbage\r\n\r\n', b'HTTP/1.1 200 OK\r\n' + big + b'\r\n\r\n', b'HTTP/1.1 200 OK\r\nno colon\r\n\r\n', b'HTTP/1.1 99999 OK\r\n\r\n', b'HTTP/1.1 200\r\n\r\n',
+             b'HTTP/1.1 200 OK\r\n' + b'A: b\r\n' * 5000 + b'\r\n', b'HTTP/1.1 200 OK\r\n\xff\xfe: \x00\r\n\r\n', b'HTTP/1.1 200 OK\nA:b\n\n', b'HTTP/9.9 000 \r\n\r\n', b'HTTP/1.1 200 OK']
+    bad = []
+    for wire in cases:
+        r = _classify(lambda: Stream(ReaderConnection(wire)).read_response())
+        if r: bad.append('header %r... -> %s escapes' % (wire[:30], r))
+    if bad: return True, '; '.join(bad)
+    return False, '%d hostile headers end in success or a per-URL error kind' % len(cases)
+
+
+def replay_chunked(doc):
+    """both chunked-reader replays: truncation (C08) and hostile bytes (C09)"""
+    a = replay_truncated_chunked(doc)
+    if a[0]: return a
+    b = replay_hostile_body(doc)
+    if b[0]: return b
+    return False, a[1] + '; ' + b[1]
